@@ -221,6 +221,129 @@ theorem malformed_rejected_empty (gt : String) (finite : α → Bool) (dbl : Boo
     construct gt finite dbl cast ([] : GData α) = .error .value := by
   simp [construct, encode, mapE]
 
+/-! ## dtype acceptance, array rank, corrupted index lists -/
+
+/-- which numpy dtypes the constructor accepts (`kind` letter and item size of the concatenated array) -/
+def dtypeSupported (kind : String) (itemsize : Int) : Prop :=
+  kind = "u" ∨ kind = "i" ∨ (kind = "f" ∧ itemsize ≤ 8)
+
+instance (kind : String) (itemsize : Int) : Decidable (dtypeSupported kind itemsize) := by
+  unfold dtypeSupported; exact inferInstance
+
+/-- the cast the constructor applies to every cell: single precision for integers (the documented cast) and
+for half precision (lossless widening), nothing for float32 / float64 -/
+def dtypeCast (kind : String) (itemsize : Int) (toF32 : α → α) : α → α :=
+  if kind = "u" ∨ kind = "i" ∨ itemsize < 4 then toF32 else id
+
+/-- the dtype decision (`Gen.dtypePlan`, regenerated from the source) resolved: supported dtypes go on with the
+cast and the attribute they determine, everything else is a ValueError -/
+theorem constructDT_resolved (gt : String) (finite : α → Bool) (kind : String) (itemsize : Int) (toF32 : α → α) (gd : GData α) :
+    constructDT gt finite kind itemsize toF32 gd =
+      if dtypeSupported kind itemsize then
+        construct gt finite (decide (kind = "f" ∧ itemsize = 8)) (dtypeCast kind itemsize toF32) gd
+      else .error .value := by
+  unfold constructDT dtypeSupported dtypeCast
+  rw [dtypePlan_spec]
+  by_cases h1 : kind = "u"
+  · subst h1; simp
+  by_cases h2 : kind = "i"
+  · subst h2; simp
+  by_cases h3 : kind = "f"
+  · subst h3
+    by_cases h8 : itemsize > 8
+    · have : ¬ itemsize ≤ 8 := by omega
+      simp [h8, this]
+    · have h8' : itemsize ≤ 8 := by omega
+      by_cases h4 : itemsize < 4
+      · have : ¬ itemsize = 8 := by omega
+        simp [h8, h8', h4, this]
+      · have h8'' : ¬ (8 < itemsize) := by omega
+        by_cases he : itemsize = 8
+        · subst he; simp
+        · have : (itemsize == 8) = false := by simpa using he
+          simp [h8', h8'', h4, he, this]
+  · simp [h1, h2, h3]
+
+
+/-- **Acceptance ⇒ the stored cells are the input cells after the documented cast.**  If the constructor
+accepts arrays of dtype (`kind`, `itemsize`) then the dtype is integer or float of at most double
+precision, the input is valid, DoublePointCoordinatesData is used exactly for 8-byte floats, and the parsed
+group returns every cell of every annotation — cast to single precision for integer / half-precision
+input, untouched otherwise. -/
+theorem acceptance_implies_stored_cells (gt : String) (finite : α → Bool) (kind : String) (itemsize : Int) (toF32 : α → α)
+    (gd : GData α) (g : Group α) (hg : constructDT gt finite kind itemsize toF32 gd = .ok g) :
+    dtypeSupported kind itemsize ∧
+    ∃ c, Valid gt finite (dtypeCast kind itemsize toF32) gd c ∧
+      g.enc.double = decide (kind = "f" ∧ itemsize = 8) ∧
+      getGraphicData (parse g) (ctOf c) = .ok (castG (dtypeCast kind itemsize toF32) gd) := by
+  rw [constructDT_resolved] at hg
+  by_cases hs : dtypeSupported kind itemsize
+  · simp only [hs, if_true] at hg
+    obtain ⟨c, v⟩ := (accepted_iff_valid gt finite _ _ gd).1.mp ⟨g, hg⟩
+    obtain ⟨g', hg', hr⟩ := graphic_data_roundtrip gt finite (decide (kind = "f" ∧ itemsize = 8)) _ gd c v
+    rw [hg] at hg'; cases hg'
+    exact ⟨hs, c, v, (stored_attributes gt finite _ _ gd c v g hg).2.1, hr⟩
+  · simp [hs] at hg
+
+/-- every other dtype (bool, complex, long double, strings, objects …) is refused with a ValueError,
+whatever the data -/
+theorem unsupported_dtype_rejected (gt : String) (finite : α → Bool) (kind : String) (itemsize : Int) (toF32 : α → α)
+    (gd : GData α) (h : ¬ dtypeSupported kind itemsize) :
+    constructDT gt finite kind itemsize toF32 gd = .error .value := by
+  rw [constructDT_resolved]; simp [h]
+
+/-- **one-dimensional arrays are refused**: whenever one of the input arrays is 1-D the constructor raises
+ValueError (point-count check on `shape[0]`, `np.concatenate` on mixed ranks, or the `ndim` guard) -/
+theorem malformed_rejected_one_dimensional (gt : String) (finite : α → Bool) (kind : String) (itemsize : Int) (toF32 : α → α)
+    (arrs : List (Arr α)) (h : allD2 arrs = none) :
+    constructArrs gt finite kind itemsize toF32 arrs = .error .value := by
+  unfold constructArrs
+  simp only [h]
+  cases hc : mapE (fun (a : Arr α) => pointCountCheck gt (a.shape0 : Int) a.firstEqLast) arrs with
+  | error e =>
+    have : e = .value := by
+      refine mapE_error_kind _ .value arrs ?_ e hc
+      intro a _ e' he
+      rw [pointCountCheck_spec] at he
+      split at he
+      · cases he
+      · cases he; rfl
+    subst this; rfl
+  | ok _ =>
+    simp only []
+    split
+    · rfl
+    · rw [dtypePlan_spec]
+      by_cases h1 : kind = "u" ∨ kind = "i"
+      · simp [h1, encodePlan_ndim]
+      · by_cases h2 : kind ≠ "f" ∨ itemsize > 8
+        · simp [h1, h2]
+        · simp [h1, h2, encodePlan_ndim]
+
+omit [DecidableEq α] in
+/-- **a corrupted index list is refused when the parsed group is read**: an empty list, a first entry other
+than 1, entries that are not strictly increasing, an entry off a point boundary or beyond the coordinate
+data — `get_graphic_data` raises ValueError instead of cutting at a negative / misplaced position -/
+theorem corrupt_index_list_refused (gt : String) (hgt : gt = "POLYLINE" ∨ gt = "POLYGON") (e : Enc α) (ct stored : Int)
+    (rows : List (Row α)) (il : List Int) (hil : e.indexList = some il)
+    (hbad : ((il.map (fun i => i - 1)).isEmpty || headNotZero (il.map (fun i => i - 1)) ||
+      anyNotIncreasing (il.map (fun i => i - 1)) ||
+      (il.map (fun i => i - 1)).any (fun i => decide (Int.fmod i stored ≠ 0)) ||
+      lastBeyond (il.map (fun i => i - 1)) ((rows.length : Int) * stored)) = true) :
+    splitRows gt e ct stored rows = .error .value := by
+  unfold splitRows
+  rw [decodePlan_spec]
+  have h1 : ¬ (gt = "RECTANGLE" ∨ gt = "ELLIPSE") := by rcases hgt with h | h <;> subst h <;> decide
+  have h2 : ¬ (gt = "POINT") := by rcases hgt with h | h <;> subst h <;> decide
+  simp only [h1, h2, hgt, if_true, if_false, hil, cutsOf, checkIndexList_invalid stored _ il hbad]
+  simp
+
+/-- the six corrupted lists of `fixes/C18-corrupt-index-list/repro.py` (three 2-D triangles, valid list
+`[1, 7, 13]`, 9 stored rows) are all refused, the valid one is accepted -/
+example : ([[1, 0, 13], [1, 13, 7], [1, 8, 13], [3, 7, 13], [1, 7, 19], [1, 7, 7]].map (fun il => checkIndexList 2 9 il)).all
+    (fun r => r == .error .value) = true ∧ checkIndexList 2 9 [1, 7, 13] = .ok [0, 6, 12] := by decide
+
+
 /-! ## measurements -/
 
 /-- **Every NaN pattern round-trips**: `none` = NaN; the values come back at their positions (after the
